@@ -511,7 +511,13 @@ package iscp
 //  for the payload-preserving store, which is the default one)
 
 //@ func ConnectWithConfig
-//@   props C02 C15
+//@   props C02 C15 C16 C05
+//@   ghostvar wc *wire.ClientConn = nil
+//@   after call connectWire: wc = res0
+//@   ensures[C05,C16] imp(result1 == nil, result0 != nil && result0.wireConn == wc)
+//@   ensures[C05,C16] imp(result1 == nil, result0.sentStorage == c.sentStorage && result0.upstreamRepository == c.upstreamRepository && result0.downstreamRepository == c.downstreamRepository)
+//@   ensures[C05,C16] imp(result1 == nil, result0.downstreamIDGenerator != nil && result0.downstreamIDGenerator.currentValue == 1)
+//@   ensures[C16] imp(result1 == nil, result0.replyCallChs != nil && len(result0.replyCallChs) == 0 && result0.upstreamCallAckCh != nil && len(result0.upstreamCallAckCh) == 0 && cap(result0.downstreamCallCh) >= 1 && cap(result0.replyCallCh) >= 1 && result0.upstreams != nil && result0.downstreams != nil)
 //@   assert[C02] call connectWire: c.sentStorage != nil && imp(old(c.sentStorage) == nil, typeis(c.sentStorage, *inmemSentStorage) && unbox(c.sentStorage, *inmemSentStorage) != nil)   // default store keeps payloads
 //@   assert[C15] call connectWire: c.PingInterval == ite(old(c.PingInterval) == 0, defaultPingInterval, old(c.PingInterval)) && c.PingTimeout == ite(old(c.PingTimeout) == 0, defaultPingTimeout, old(c.PingTimeout))   // configured keepalive, defaults only for zero
 
